@@ -12,6 +12,7 @@
 #include "delta_encoder.h"
 #include "delta_decoder.h"
 #include <dlfcn.h>
+#include <malloc.h>
 #include "hcommon.h"
 #include "ref_bcj.h"
 
@@ -214,6 +215,7 @@ static int drive_strm(lzma_stream *s, const uint8_t *in, size_t n, uint8_t *out,
 	return Q_STUCK;
 }
 // streaming public API on 'strm' (fresh LZMA_STREAM_INIT or one that is being reused without lzma_end)
+static uint8_t *pre_c; static size_t pre_cn, pre_cap; static int pre_valid;
 static int pub_run(const filt *f, int enc, uint32_t param, const uint8_t *in, size_t n, uint8_t *out, const sched *sc, lzma_stream *strm) {
 	lzma_stream local = LZMA_STREAM_INIT; lzma_stream *s = strm ? strm : &local;
 	lzma_filter a[3], b[3]; lzma_options_lzma lz; lzma_options_bcj ob; lzma_options_delta od;
@@ -230,9 +232,14 @@ static int pub_run(const filt *f, int enc, uint32_t param, const uint8_t *in, si
 		if (r != LZMA_OK) return Q_ERR;
 		return op == n && ipos == cp ? Q_OK : Q_LEN;
 	}
-	if (lzma_raw_buffer_encode(b, NULL, in, n, cbuf, &cp, cbuf_cap) != LZMA_OK) return Q_ERR;
+	if (!pre_valid) {	// the LZMA2 form of the input is made once per case
+		if (pre_cap < cbuf_cap) { pre_c = realloc(pre_c, cbuf_cap); pre_cap = cbuf_cap; }
+		pre_cn = 0; if (lzma_raw_buffer_encode(b, NULL, in, n, pre_c, &pre_cn, pre_cap) != LZMA_OK) return Q_ERR;
+		pre_valid = 1;
+	}
+	cp = pre_cn;
 	if (lzma_raw_decoder(s, a) != LZMA_OK) { if (!strm) lzma_end(s); return Q_INIT; }
-	rc = drive_strm(s, cbuf, cp, out, n + 8, &op, sc, NONE);
+	rc = drive_strm(s, pre_c, cp, out, n + 8, &op, sc, NONE);
 	if (!strm) lzma_end(s);
 	if (rc) return rc;
 	return op == n ? Q_OK : Q_LEN;
@@ -244,16 +251,20 @@ static void crash_extra(char *b, size_t bn) {
 	if (!cur_f) return; char hx[1300]; h_hex(hx, cur_x, cur_n, 600);
 	snprintf(b, bn, "family=%s filter=%s param=0x%x n=%zu hex=%s", cur_family, cur_f->name, cur_param, cur_n, hx);
 }
-static int case_failed;
+static int case_failed, replay_by_family, samples_out;
 static void report(const char *what, const filt *f, const char *dir, uint32_t param, const uint8_t *x, size_t n, const char *fmt, ...) {
 	char key[160], detail[1800], hx[1500];
 	case_failed = 1;
 	snprintf(key, sizeof key, "%s:%s:%s", what, f->name, dir);
 	va_list ap; va_start(ap, fmt); vsnprintf(detail, sizeof detail, fmt, ap); va_end(ap);
-	if (n <= 700) {
+	if (n <= 700 && !replay_by_family) {
 		h_hex(hx, x, n, 700);
 		h_fail(key, "[%s] %s param=0x%x n=%zu in=%s : %s replay={\"harness\":\"c15_bcj\",\"filter\":\"%s\",\"param\":%u,\"hex\":\"%s\"}",
 			cur_family, f->name, param, n, hx, detail, f->name, param, hx);
+	} else if (n <= 700) {
+		h_hex(hx, x, n, 700);
+		h_fail(key, "[%s] %s param=0x%x n=%zu in=%s : %s replay={\"harness\":\"c15_bcj\",\"family\":\"%s\",\"tier\":\"%s\",\"shard\":%d,\"nshards\":%d}",
+			cur_family, f->name, param, n, hx, detail, cur_family, thorough ? "thorough" : "quick", shard, nshards);
 	} else
 		h_fail(key, "[%s] %s param=0x%x n=%zu (large buffer) : %s replay={\"harness\":\"c15_bcj\",\"family\":\"%s\",\"tier\":\"%s\",\"shard\":%d,\"nshards\":%d}",
 			cur_family, f->name, param, n, detail, cur_family, thorough ? "thorough" : "quick", shard, nshards);
@@ -329,6 +340,8 @@ static void check_case(const filt *f, uint32_t param, const uint8_t *x, size_t n
 	if (ref_apply(f, 1, param, RE, n) || ref_apply(f, 0, param, RD, n)) { h_fail("infra:reference-refused", "%s param=%u", f->name, param); return; }
 	const int nontrivial = (n && (memcmp(RE, x, n) || memcmp(RD, x, n)));
 	if (nontrivial) { n_nontrivial++; if (h_set_add(&seen, case_hash(f, param, x, n))) n_distinct++; else n_dups++; }
+	if (nontrivial && samples_out < 2 && shard == 0 && n <= 40) { char a[100], b[100], c[100]; h_hex(a, x, n, 40); h_hex(b, RE, n, 40); h_hex(c, RD, n, 40); samples_out++;
+		printf("SAMPLE %s %s=0x%x in=%s enc=%s dec=%s\n", f->name, f->kind < 0 ? "dist" : "start", param, a, b, c); }
 	char dt[400];
 	for (int enc = 1; enc >= 0; enc--) {
 		const char *dir = enc ? "enc" : "dec"; const uint8_t *expect = enc ? RE : RD; uint8_t *io = enc ? IE : ID;
@@ -397,6 +410,7 @@ static void check_case(const filt *f, uint32_t param, const uint8_t *x, size_t n
 	}
 	// seam P: public raw coder, chain [filter, LZMA2]; the LZMA2 layer is handled by liblzma with chain [LZMA2]
 	if (lv & LV_PUBLIC) {
+		pre_valid = 0;
 		for (int enc = 1; enc >= 0; enc--) {
 			const char *dir = enc ? "enc" : "dec"; const uint8_t *io = enc ? IE : ID;
 			int r = rawbuf_run(&TREE, f, enc, param, x, n, T1); n_pub++;
@@ -444,6 +458,7 @@ static int hexval(int c) { return c >= '0' && c <= '9' ? c - '0' : c >= 'a' && c
 
 int main(int argc, char **argv)
 {
+	mallopt(M_MMAP_THRESHOLD, 256 << 20); mallopt(M_TRIM_THRESHOLD, 512 << 20);	// LZMA2 encoders are created by the million: no mmap churn
 	h_init(); h_crash_extra = crash_extra; h_set_init(&seen, 1 << 16); sys_open();
 	if (argc >= 5 && !strcmp(argv[1], "case")) {
 		const filt *f = filt_by_name(argv[2]); if (!f) { fprintf(stderr, "unknown filter\n"); return 2; }
